@@ -353,6 +353,7 @@ func TestWorker(t *testing.T) {
 		w.tmp, _ = os.MkdirTemp("", "verifsim-worker")
 		defer os.RemoveAll(w.tmp)
 	}
+	recordTmpDir = w.tmp
 	if wp := os.Getenv("VERIF_WAL"); wp != "" {
 		if fd, err := syscall.Open(wp, syscall.O_CREAT|syscall.O_WRONLY|syscall.O_TRUNC, 0o644); err == nil {
 			w.walfd = fd
